@@ -320,6 +320,7 @@ def run_case(ctx, rng, job):
                 facs[i] = Fac('f_' + nm(i), calls)
                 registry.register([i], w.target, '', facs[i])
     kinds = []
+    check_p = rng.choice([1.0, 1.0, 0.3, 0.0])
     first_super = None
     changed_after_super = 0
     for s in range(nsteps):
@@ -330,7 +331,12 @@ def run_case(ctx, rng, job):
             if first_super is not None and ctx.log[-1][0] in ('ci', 'cio', 'cif', 'deco', 'decoonly'):
                 changed_after_super += 1
         if prop == 'C01':
-            w.check()
+            # "in any order relative to ... earlier queries": besides histories in which everything is queried
+            # after every step (all lazily built declarations warm), run histories that are queried only now
+            # and then, or only at the end (declarations made on cold, never-queried classes and objects)
+            if check_p >= 1.0 or s == nsteps - 1 or rng.random() < check_p:
+                w.check()
+                ctx.count('check_points[%s]' % ('every-step' if check_p >= 1.0 else 'sparse' if check_p else 'end-only'))
         else:
             # C19: query the proxies on a seeded subset of steps so that declaration
             # changes happen both with a cold and with a warm per-class super cache
